@@ -100,7 +100,8 @@ TraceBoundary ==
                (N.rfs /\ Finite(b.e) /\ consmid) => b.inbox>>,
            <<"C03:reported-solution-violates-constraints", (N.cfs /\ ~N.randomclip /\ Finite(b.e)) => b.consfix>>,
            <<"C03:reported-energy-is-not-the-energy-of-the-constrained-point",
-               (N.cfs /\ ~N.randomclip /\ clean /\ Finite(b.e) /\ b.inbox /\ b.consfix) => b.e = b.tot>> >>
+               (N.cfs /\ ~N.randomclip /\ clean /\ Finite(b.e) /\ b.consfix) => b.e = b.tot>> >>
+           \* (b.tot is INF for a point outside the box: a finite energy reported there is not that point's energy)
      IN Probe(cl) /\ AllTrue(cl)
   /\ UNCHANGED <<calls, dirty, moved, consmid>>
 
